@@ -273,3 +273,6 @@ fn c16_decode_length_mismatch_rejected() {
     n[2] = 0; n[3] = 8;                       // declares 8 bytes, only 4 present
     assert!(decode_stun_message(&n).is_err());
 }
+
+// (encode with a String-carrying attribute + MI + FP was measured: CBMC runs out of memory after ~10 min —
+// drop glue of the attribute enum; the padding law itself is covered by c16_raw_attribute_len_5/7.)
